@@ -123,6 +123,30 @@ func c01describe(v ssa.Value, f *ssa.Function) string {
 	return "?" + core.Path(v)
 }
 
+func isTrueConstV(v ssa.Value) bool {
+	k, ok := v.(*ssa.Const)
+	return ok && isTrueConst(k)
+}
+
+// c01zeroInit: addr is a field (possibly of an embedded struct) of an object that is all-zero before the stores of f run:
+// a local the function allocates, or a package-level variable written by the package initialiser.
+func c01zeroInit(f *ssa.Function, addr ssa.Value) bool {
+	for {
+		fa, ok := addr.(*ssa.FieldAddr)
+		if !ok {
+			break
+		}
+		addr = fa.X
+	}
+	switch addr.(type) {
+	case *ssa.Alloc:
+		return true
+	case *ssa.Global:
+		return f.Name() == "init" && f.Parent() == nil
+	}
+	return false
+}
+
 func runC01(c *core.Ctx) {
 	p := c.P
 	c.Rule("R1", "absence flags are only written at construction, consistently: (IsNil(v), !IsNil(v)) of the wrapped v, or the constant absent value; Maybe.Just returns None exactly on IsNil(in)", 3)
@@ -158,6 +182,11 @@ func runC01(c *core.Ctx) {
 		nFlagStores++
 		c.Analysed(core.FuncName(f))
 		key := core.FuncName(f) + "/flags"
+		if isNilSt != nil && isPresSt == nil && isTrueConstV(isNilSt.Val) && c01zeroInit(f, isNilSt.Addr) {
+			// the absent constant with `isPresent: false` left to the zero value of a freshly created object
+			c.Pass("R1", key, p.InstrPos(isNilSt), "constant absent value (isNil: true, isPresent left at its zero value false)")
+			continue
+		}
 		if isNilSt == nil || isPresSt == nil {
 			c.Fail("R1", key, p.Pos(f.Pos()), "only one of the two absence flags is written: IsPresent and IsNil can disagree")
 			continue
